@@ -11,7 +11,7 @@ TRUSTED = [
     "Coq 8.16.1 kernel; theorems closed under the global context, under the stated Section hypothesis that the bzip2 oracle returns a value or an error (bzip2-rs is not verified)",
     "extraction (ExtrOcamlBasic), extract/driver.ml, Rust harness (catch_unwind, subprocess restart on abort, socket-operation cap as hang detector) + scripted transport hook",
     "third-party decoders (bzip2-rs, encoding_rs, std from_utf8) are exercised by the malformed stream, not proved panic-free",
-    "totality theorems: valve::query (and through it every Valve game wrapper), quake one/two/three, unreal2; gamespy, minecraft and the single-game protocols are modelled and run through the same malformed streams (model = implementation, no panic / abort / hang), without a totality theorem yet",
+    "totality theorems: valve::query (and through it every Valve game wrapper), The Ship, Battalion 1944, FFOW, quake one/two/three, unreal2, gamespy one/two/three (and the variables-only query), JC2-MP, Savage 2, Mindustry, every Minecraft entry point (serde_json::from_str as an oracle that answers); all of them also run through the malformed streams (model = implementation, no panic / abort / hang). Eco / Epic / Minetest (HTTP) are not modelled",
 ]
 RULE = ("malformed stream over Spec-generated valid scripts: truncation at every/ random offsets, extreme values (00, ff, 7f, 80, 16/32-bit extremes) written at random offsets, "
         "dropped / duplicated / swapped / empty / oversized (up to 64 KiB) datagrams, timeouts, deleted terminators, bit flips, random packets; all engines and gather settings, retries 0..2; "
